@@ -231,6 +231,8 @@ def run(ctx) -> None:
   ctx.rule('R3', 'client: operation.error is checked before the response is decoded; '
            'FAILED_PRECONDITION maps to [] and anything else is re-raised', 3)
   ctx.rule('R4', 'raising events inside the acquire..release window are enumerated', 2)
+  ctx.import_rules('C04', {'R2'}, 'R6', 'locks around the algorithm are released when it raises (with-blocks only, acyclic order)')
+  ctx.import_rules('C02', {'R3'}, 'R7', 'over-delivery: every surplus trial gets its own fresh id')
   ctx.assume('proto setters, logging, converters and datastore calls other than update_metadata '
              'do not raise inside the window')
   ctx.trust('in-process PythiaServicer.Suggest re-raises RuntimeError; a PythiaService stub raises '
